@@ -58,6 +58,7 @@ func (m *c19Model) PostTokenize(in []input.Input) ([]input.Input, error) { retur
 type c19Pair struct {
 	real   bool // produced by the real chatPrompt
 	hyp    bool // user text contained no literal "[img-"
+	strict bool // literal tag typed AND the template prints every content exactly once
 	prompt string
 	ids    []int
 }
@@ -115,6 +116,10 @@ func c19RunPair(out *zzverif.Out, p c19Pair) {
 			out.L2("runner-rejects-prompt", line, label+"inputs() fails on a pair produced by chatPrompt: "+err.Error())
 			return
 		}
+		if !p.strict {
+			return
+		}
+		out.Count("l2_literal_tag_in_text_each_image_once_evaluated")
 		used := map[string]int{}
 		for _, d := range fm.encoded {
 			used[d]++
@@ -197,7 +202,7 @@ func TestVerifC19Runner(t *testing.T) {
 			if len(fs) < 3 {
 				continue
 			}
-			pr := c19Pair{real: true, hyp: fs[0] == "H1", prompt: string(zzverif.Unhex(fs[1]))}
+			pr := c19Pair{real: true, hyp: fs[0] == "H1", strict: fs[0] == "H0S", prompt: string(zzverif.Unhex(fs[1]))}
 			for _, x := range fs[3:] {
 				v, _ := strconv.Atoi(x)
 				pr.ids = append(pr.ids, v)
